@@ -280,7 +280,7 @@ def CompleteOwnerOk (s : State) (b k : Bytes) (id : Nat) (pl : List (Option Int)
 
 /-- `complete_multipart_upload` comparable: a non-empty part list is given [else fs:complete-part-list-validation]; the
     upload does not exist under this bucket and key (`NoSuchUpload` on both sides since 4609ab3 and, for an upload created
-    for another bucket or key, 6bf591c; before: fs:unknown-upload-code, fs:upload-not-bound-to-key), or, if the requester owns
+    for another bucket or key, 41e1cf2; before: fs:unknown-upload-code, fs:upload-not-bound-to-key), or, if the requester owns
     it, the request meets `CompleteOwnerOk` -/
 def CompleteOk (s : State) (who : Who) (b k : Bytes) (u : UploadRef) (parts : Option (List (Option Int))) : Prop :=
   match parts with
@@ -406,7 +406,7 @@ theorem complete_refines (H : Hashes) (dl : Nat) {s : State} (hi : Inv s) {who :
         simp only at hg
         by_cases hbk : ui.bucket = b ∧ ui.key = k
         case neg =>
-          -- created for another bucket or key: `NoSuchUpload` on both sides (6bf591c)
+          -- created for another bucket or key: `NoSuchUpload` on both sides (41e1cf2)
           have habs : AbsentUpload s (some id) b k := by simp only [AbsentUpload, hl]; exact hbk
           have hup := habs.upload
           cases pl with
